@@ -11,8 +11,8 @@ RULE = ('(a) gate correspondence on a harness plugin loaded into the live bot: g
         'capabilities and defaultAllow, default set, default flag, ignore database) x channel/private: the real Owner.doPrivmsg -> '
         'NestedCommandsIrcProxy -> _callCommand run is compared event by event with the extracted model; checkCommandCapability, '
         'DefaultCapabilities.setValue sequences and ircdb.checkIgnored are compared on their own (incl. hostile names).  (b) live bot, worker '
-        'processes: EVERY command of every loadable bundled plugin x 11 caller roles (owner, admin, channel-op, plain registered, unregistered, '
-        'ignored, and secure owner/admin/channel-op accounts addressed from a non-matching hostmask: identified there by password before `secure` was set, never identified, identified from a mask removed later) x addressing forms (prefix char, nick, private, nick at end) x wrappers (direct, plugin-qualified, '
+        'processes: EVERY command of every loadable bundled plugin x 13 caller roles (owner, admin, channel-op, plain registered, unregistered, '
+        'ignored, and secure owner/admin/channel-op accounts addressed from a non-matching hostmask: identified there by password before `secure` was set, never identified, identified from a mask removed later; plus accounts holding only #chan,voice / #chan,halfop, over the channel-related commands; plus, for the commands whose body picks the required capability from its arguments (Channel voice/devoice), argument lists mixing the caller\'s own nick, other nicks, both and none) x addressing forms (prefix char, nick, private, nick at end) x wrappers (direct, plugin-qualified, '
         'nested [..], piped, Alias, Aka, Scheduler fired with a patched clock) x default-capability settings (stock, default-deny, anti-capability '
         'of the command / of the plugin in the default set, in the channel, on the account): every command body is wrapped to log calls, '
         'ircdb.users/channels/ignores, the registry, irc.callbacks and world.ircs are snapshotted before/after; the model predicts the gate '
@@ -48,15 +48,20 @@ ROLES = {'owner': 'own!o@ohost', 'admin': 'adm!a@ahost', 'chanop': 'cop!c@chost'
          'secadmin': 'sad!s@wronghost',     # admin account, same history
          'secchanop': 'sco!s@wronghost',    # #test,op account, same history
          'secnoauth': 'sna!s@wronghost',    # owner account, never identified from that prefix
-         'secremoved': 'srm!s@oldhost'}     # owner account, identified from a then-matching mask that was removed afterwards
+         'secremoved': 'srm!s@oldhost',     # owner account, identified from a then-matching mask that was removed afterwards
+         # channel capabilities below op: for the commands whose body picks the required capability from its arguments
+         'voiced': 'vcd!v@vchost', 'halfopped': 'hfo!h@hhost'}
 ROLE_CAPS = {'owner': ['owner'], 'admin': ['admin'], 'chanop': ['#test,op'], 'plain': [], 'secure': ['owner'],
-             'secadmin': ['admin'], 'secchanop': ['#test,op'], 'secnoauth': ['owner'], 'secremoved': ['owner']}
+             'secadmin': ['admin'], 'secchanop': ['#test,op'], 'secnoauth': ['owner'], 'secremoved': ['owner'],
+             'voiced': ['#test,voice'], 'halfopped': ['#test,halfop']}
 CORE_ROLES = ('owner', 'admin', 'chanop', 'plain', 'unreg', 'ignored', 'secure')
 SECURE_ROLES = ('secure', 'secadmin', 'secchanop', 'secnoauth', 'secremoved')
 # the property text for a secure account: without a matching registered mask the caller holds nothing the account holds,
 # so the oracle evaluates "does the caller hold X" for a prefix no account knows (never through the account lookup)
 UNKNOWN_EVAL = 'nobody!n@unregistered.invalid'
-NICKS = 'own adm cop pln unr ign sec sad sco sna srm'
+NICKS = 'own adm cop pln unr ign sec sad sco sna srm vcd hfo'
+# the bot is opped in #test: otherwise the haveOp / haveHalfop+ converters stop every channel command before its body
+NAMES = '@test @' + NICKS
 STUB_ROLES = ('owner', 'admin')
 EXTRA_CAPS = ['scheduler.add', 'scheduler.remove']       # so that registered non-owners can reach the Scheduler wrapper
 FORMS = ['char', 'nick', 'priv', 'atend']
@@ -75,6 +80,25 @@ INBODY = [('Config', 'config', 'supybot.reply.whenNotCommand False'), ('Config',
           ('MessageParser', 'add', '#test "zz" "echo y"'), ('MessageParser', 'vacuum', '#test'), ('Misc', 'list', '--private'),
           ('Channel', 'voice', '#test pln'), ('Channel', 'kban', '#test pln')]
 LACKING_ROLES = ('plain', 'unreg', 'chanop', 'admin', 'secure', 'secadmin')
+# Channel._voice (commands voice / devoice) picks the capability it requires from its ARGUMENTS.  The rule the oracle
+# applies (docstrings + the channel-operator clause of the property): (de)voicing yourself takes #channel,voice,
+# (de)voicing anybody else takes #channel,op.  {me} = the caller's own nick.
+CHANCAP_ROLES = ('voiced', 'halfopped')
+ARGDEP = [('Channel', 'voice'), ('Channel', 'devoice')]
+ARGDEP_ARGS = ['', '{me}', '{other}', '{me} {other}', '{other} {me}', '{other} {other2}', '{ME}', '{me} {me}', '{other} {me} {other2}']
+ARGDEP_ROLES = ('voiced', 'halfopped', 'plain', 'chanop', 'unreg', 'secchanop', 'admin')
+
+
+def argdep_rule(B, plugin, cmd, received, caller):
+    """(required capability, nick list, channel) by the documented rule for an argument-dependent command, from the
+    (channel, nicks) the command body received; None when the command is not of that kind or its body did not run"""
+    if (plugin, cmd) not in ARGDEP or received is None:
+        return None
+    chan, toks = received[0], list(received[1])
+    eq = B['ircutils'].strEqual
+    targets = toks or [caller]
+    word = 'voice' if all(eq(t, caller) for t in targets) else 'op'
+    return '%s,%s' % (chan, word), toks, chan
 
 _BOT = {}
 LOG = []
@@ -151,7 +175,7 @@ def bot(all_plugins=True):
     B['loaded'], B['unloadable'] = loaded, failed
     for l in (':server 001 test :Welcome', ':server 005 test CHANTYPES=#& PREFIX=(ov)@+ STATUSMSG=@+ NICKLEN=30 :are supported',
               ':server 376 test :End of MOTD', ':test!bot@bothost JOIN #test',
-              ':server 353 test = #test :test @%s' % NICKS, ':server 366 test #test :End of names'):
+              ':server 353 test = #test :%s' % NAMES, ':server 366 test #test :End of names'):
         irc.feedMsg(ircmsgs.IrcMsg(l))
     _instrument(B)
     setup_roles(B)
@@ -304,6 +328,9 @@ def wrap_bodies(B, cb, plugin, path):
             def mk(f, key):
                 def body(self, irc, msg, args, *a, **k):
                     LOG.append(('body', key[0], key[1]))
+                    if key in ARGDEP and len(a) >= 2:
+                        # what the command was actually asked to act on (Alias / Aka / nesting may re-quote the typed arguments)
+                        LOG.append(('bodyargs', key[0], key[1], [str(a[0]), [str(x) for x in (a[1] or [])]]))
                     if _BOT.get('stub') == key:
                         return None
                     return f(self, irc, msg, args, *a, **k)
@@ -547,7 +574,7 @@ def restore(B):
         if irc.nick != 'test':
             irc.feedMsg(im.IrcMsg(':%s NICK test' % irc.prefix))
         irc.feedMsg(im.IrcMsg(':test!bot@bothost JOIN #test'))
-        irc.feedMsg(im.IrcMsg(':server 353 test = #test :test @%s' % NICKS))
+        irc.feedMsg(im.IrcMsg(':server 353 test = #test :%s' % NAMES))
         irc.feedMsg(im.IrcMsg(':server 366 test #test :End of names'))
     irc.zombie = False
     _drain(B)
@@ -901,6 +928,32 @@ def live_one(B, inv):
     st['inbody_denials'] = st.get('inbody_denials', 0) + (1 if inbody else 0)
     if B.get('blanked') and (lacks or inbody) and not ignored:
         st['blank_denials'] = st.get('blank_denials', 0) + 1
+    # argument-dependent requirement (Channel voice / devoice)
+    caller_nick = prefix.split('!')[0]
+    received = next((e[3] for e in log if e[0] == 'bodyargs' and (e[1], e[2]) == (plugin, cmd)), None)
+    rule = argdep_rule(B, plugin, cmd, received, caller_nick)
+    if rule is not None and not ignored:
+        need_cap, nick_args, rchan = rule
+        try:
+            short = not ircdb.checkCapability(eval_prefix or prefix, need_cap)
+        except Exception:
+            short = False
+        modes = [m for m in outs if not isinstance(m, Exception) and m.command == 'MODE']
+        if short:
+            st['argdep_lacking'] = st.get('argdep_lacking', 0) + 1
+            if modes:
+                fails.append('caller lacks %s (required to %s %s) but the bot sent %r' % (need_cap, cmd, ' '.join(nick_args) or 'himself', str(modes[0]).strip()))
+            elif ch:
+                fails.append('caller lacks %s but state changed: %s' % (need_cap, '; '.join(ch)[:300]))
+        if bodies and rec is not None:
+            inb = [e[1] for e in seg[next(i for i, e in enumerate(seg) if e[0] == 'body'):] if e[0] == 'nocap']
+            impl_v = None
+            if inb:
+                impl_v = ['denied', str(inb[0])]
+            elif modes:
+                impl_v = ['mode', [n for m in modes for n in m.args[2:]]]
+            if impl_v is not None:
+                rec['voice'] = {'case': [dbwire, rchan, nick_args, caller_nick], 'impl': impl_v}
     restore_needed = bool(ch) or setting != 'stock' or bool(bodies)
     if restore_needed:
         restore(B)
@@ -939,6 +992,19 @@ def plan(B, rng, mode, cmds, flt=None):
                 elif role in roles:
                     add(ci + 1, p, c, ri, role, 1)
         return invs
+    # the argument-dependent commands: the caller's own nick, other nicks, both, none -- for the roles below op
+    have0 = set(cmds)
+    for (p, c) in ARGDEP:
+        if (p, c) not in have0:
+            continue
+        for role in ARGDEP_ROLES:
+            me = ROLES[role].split('!')[0]
+            others = [n for n in ('adm', 'cop', 'pln') if n != me]
+            for a in ARGDEP_ARGS:
+                a2 = a.format(me=me, ME=me.upper(), other=others[0], other2=others[1])
+                for form in ('char', 'priv', 'nick'):
+                    invs.append({'op': 'live', 'role': role, 'form': form, 'wrapper': 'plugin' if mode == 'quick' else rng.choice(['plugin', 'direct', 'nested', 'sched']),
+                                 'plugin': p, 'cmd': c, 'args': ('#test ' + a2).strip() if form == 'priv' else a2, 'setting': 'stock'})
     # the in-body checks under blank denial messages, for every role lacking the capability
     have = set(cmds)
     for (p, c, a) in INBODY:
@@ -951,7 +1017,10 @@ def plan(B, rng, mode, cmds, flt=None):
                                  'plugin': p, 'cmd': c, 'args': a, 'setting': st_})
     core, extra = (2, 1) if mode == 'quick' else (10, 5)
     for ci, (p, c) in enumerate(cmds):
+        chanrel = p in ('Channel', 'Topic') or any(g[0] == 4 for g in (gates_of(B, B['bodies'][(p, c)]) or []))
         for ri, role in enumerate(ROLES):
+            if role in CHANCAP_ROLES and not chanrel:
+                continue          # these roles differ from `plain` by channel capabilities only: channel-related commands
             add(ci, p, c, ri, role, core if role in CORE_ROLES else extra)
     return invs
 
@@ -1001,7 +1070,7 @@ def worker_main(argv):
                      % (i, len(B['resolve_errors']), B['resolve_errors'][0][:160]))
     touched = sorted({(inv['plugin'], inv['cmd'], inv['role']) for inv in mine[:done]})
     sys.stdout.write('\nRESULT ' + json.dumps({'recs': recs, 'fails': fails, 'dist': dict(dist), 'hashes': sorted(hashes), 'notes': notes,
-                                               'done': done, 'planned': len(mine), 'ncmds': len(cmds), 'touched': [list(t) for t in touched], 'stats': B.get('stats', {})}) + '\n')
+                                               'done': done, 'planned': len(mine), 'ncmds': len(cmds), 'npairs': len({(x['plugin'], x['cmd'], x['role']) for x in invs}), 'touched': [list(t) for t in touched], 'stats': B.get('stats', {})}) + '\n')
     sys.stdout.flush()
     import shutil
     shutil.rmtree(boot._booted.get('dir', ''), True)
@@ -1138,9 +1207,18 @@ def collect_live(ctx, procs):
             stats[k] = stats.get(k, 0) + v
         done += r['done']; planned += r['planned']; touched.update(tuple(t) for t in r['touched'])
         ncmds = r['ncmds']
+        npairs = r.get('npairs', 0)
     if len(ctx.samples) < 12 and recs:
         ctx.samples.append({'kind': 'live', 'input': recs[0]['inv']})
     # model: the full case and the gate-only case (method = None) to tell gate refusals from converter refusals
+    vrecs = [r for r in recs if r.get('voice')]
+    for r, mo in zip(vrecs, ctx.model([[7, r['voice']['case']] for r in vrecs])):
+        if mo is None:
+            continue
+        model = ['mode', wire.ls(mo[1])] if mo[0] == 0 else (['denied', wire.s(mo[1])] if mo[0] == 1 else ['raise'])
+        if model != r['voice']['impl']:
+            ctx.disagree(r['inv'], model, r['voice']['impl'], 'Channel._voice: capability chosen from the arguments / decision')
+    ctx.notes.append('Channel._voice runs compared with the model: %d' % len(vrecs))
     cases = [[1, r['case']] for r in recs] + [[1, r['case'][:6] + [[]] + r['case'][7:]] for r in recs]
     outs = ctx.model(cases)
     for r, mo, mg in zip(recs, outs[:len(recs)], outs[len(recs):]):
@@ -1148,10 +1226,10 @@ def collect_live(ctx, procs):
             continue
         r['_gate_only'] = dec_events(mg)
         compare_live(ctx, r, mo)
-    ctx.notes.append('live: %d workers, %d/%d planned invocations done, %d (command, role) pairs of %d commands x %d roles, %d _callCommand runs compared with the model'
-                     % (len(procs), done, planned, len(touched), ncmds, len(ROLES), len(recs)))
+    ctx.notes.append('live: %d workers, %d/%d planned invocations done, %d of %d planned (command, role) pairs (%d commands, %d roles), %d _callCommand runs compared with the model'
+                     % (len(procs), done, planned, len(touched), npairs, ncmds, len(ROLES), len(recs)))
     ctx.notes.append('live outcome counts: ' + ', '.join('%s=%d' % kv for kv in sorted(stats.items())))
-    if done < planned or (getattr(ctx, '_live_mode', 'quick') != 'widen' and len(touched) < ncmds * len(ROLES)):
+    if done < planned or (getattr(ctx, '_live_mode', 'quick') != 'widen' and len(touched) < npairs):
         ctx.notes.append('LIVE RUN INCOMPLETE: the time budget stopped the exploration before every (command, role) pair was touched')
 
 
